@@ -1870,7 +1870,7 @@ class tensor:
         if skip_dim is None:
             exclude_dims = None
             skip_dim = -1  # For easier math later
-        elif skip_dim < 0:
+        elif skip_dim < 0 or skip_dim >= self.ndims:
             raise ValueError("Invalid modes in ttsv")
         else:
             exclude_dims = np.arange(0, skip_dim + 1)
